@@ -78,6 +78,17 @@ def _only_in_wrappers(repo):
     return len(re.findall(r"\bg_check_expr_depth\b", s)) == 5 and len(re.findall(r"\bg_check_stmt_depth\b", s)) == 5
 
 
+def _parser_depth_frame(repo):
+    """parse_block's depth contract is glued by: no parser function other than the ++/-- sites resets the counter
+    (exactly one plain assignment: the initialisation in parse_program)"""
+    try:
+        s = open(os.path.join(repo, "src/parser.c"), encoding="utf-8", errors="replace").read()
+    except OSError:
+        return False
+    s = re.sub(r"//[^\n]*", "", s)
+    return len(re.findall(r"recursion_depth\s*(?:[-+*/|&^]?=)(?!=)", s)) == 1
+
+
 def lexer_obligation(oid, defines, tier, weight):
     return dict(id=oid, prop="C09", harness=LEX, entry="h_tokenize", annotate=LANN, include_repo=["", "src"],
                 defines=defines, enforce="tokenize", replace=["malloc"], loops=True,
@@ -118,6 +129,7 @@ def obligations(repo):
                     unwindset=["parse_block_wrapped_for_contract_checking.0:4"], object_bits=10,
                     strength="B(block of <= 2 statements: statement loop unwound 4 times; all callees by assumed contracts)",
                     functions=["parse_block"], timeout=600,
-                    must_have=[r"parse_block\.postcondition", r"parse_statement\.precondition", r"C09\.depth limit constant"],
+                    must_have=[r"parse_block\.postcondition", r"parse_statement\.precondition", r"C09\.depth limit constant"] +
+                    ([] if _parser_depth_frame(repo) else [r"SYNTACTIC GUARD: recursion_depth must be assigned only by its initialisation and the ++/-- sites"]),
                     min_checks=10))
     return obs
